@@ -2551,8 +2551,12 @@ impl HnswBackend {
         store.metadata[internal_id].clear();
         drop(store);
 
-        let mut meta_index = self.metadata_index.write();
-        meta_index.remove_doc(internal_id as u64, &old_metadata);
+        // Release the index lock before the snapshot below: create_snapshot takes the snapshot
+        // lock exclusively, and a concurrent writer holds it shared while waiting for this lock.
+        {
+            let mut meta_index = self.metadata_index.write();
+            meta_index.remove_doc(internal_id as u64, &old_metadata);
+        }
 
         drop(write_gate_guard);
         drop(snapshot_guard);
